@@ -4,6 +4,8 @@
 
 package planner
 
+//@ nonnil-elems *QueryPlanStep
+
 //@ func Planner.Plan
 //@ props C08 C10 C07
 //@ params ctx
@@ -18,11 +20,12 @@ package planner
 //@ returns plan, err
 //@ requires cp != nil && cp.cache != nil && cp.cacheTimers != nil && cp.executor != nil
 //@ requires forallT(k, hashKey, has(cp.cache, k) ==> cp.cache[k] != nil)
-//@ ensures[inv] forallT(k, hashKey, has(cp.cache, k) ==> cp.cache[k] != nil)
+//@ requires ctx != nil && ctx.Operation != nil && ctx.Schema != nil
 //@ end
 
 //@ func (*CachedPlanner).hash
 //@ props C14
+//@ requires ctx != nil && ctx.Operation != nil
 //@ modifies-assumed fresh
 //@ end
 
@@ -31,17 +34,37 @@ package planner
 //@ requires cp != nil
 //@ ensures[inv] forallT(k, hashKey, has(cp.cache, k) ==> old(has(cp.cache, k)) && cp.cache[k] == old(cp.cache[k]))
 //@ modifies-assumed fresh, entries(map[hashKey]*QueryPlan), entries(map[hashKey]time.Time)
+//@ loop 1 invariant[inv] forallT(k, hashKey, has(cp.cache, k) ==> old(has(cp.cache, k)) && cp.cache[k] == old(cp.cache[k]))
 //@ end
 
 //@ func (SequentialPlanner).Plan
 //@ props C07
+//@ requires ctx != nil && ctx.Operation != nil && ctx.Schema != nil
 //@ modifies-assumed fresh
 //@ end
 
 //@ func (*QueryPlan).SetComputedValues
 //@ props C07 C08
-//@ requires qp != nil
+//@ requires qp != nil && ctx != nil && ctx.Operation != nil && ctx.Schema != nil
 //@ ensures[self] result == qp
+//@ end
+
+//@ func (*QueryPlanStep).SetComputedValues
+//@ props C07 C08
+//@ requires s != nil && ctx != nil && ctx.Operation != nil && ctx.Schema != nil
+//@ ensures[self] result == s
+//@ end
+
+//@ func (*QueryPlanStep).setVariablesList
+//@ props C07 C08
+//@ requires s != nil
+//@ ensures[self] result == s
+//@ end
+
+//@ func (*QueryPlanStep).setQuery
+//@ props C07 C08
+//@ requires s != nil
+//@ ensures[self] result == s
 //@ end
 
 //@ func (ScrubFields).Clean
